@@ -400,7 +400,10 @@ theorem guardedStmt_sound (C : Codecs) (hC : HonestCodecs C) :
         simp only []
         split
         · trivial
-        · exact hk.forget_weaken f
+        · split
+          · simp only [StepOK]
+            exact hk.forget_set f _ _ none (fun _ h => by cases h)
+          · exact hk.forget_weaken f
       | panic => exact absurd hd (hC.dec_no_panic typ _)
     | false =>
       simp only [Bool.false_eq_true, if_false] at hg ⊢
@@ -426,8 +429,12 @@ theorem guardedStmt_sound (C : Codecs) (hC : HonestCodecs C) :
           | err =>
             simp only []
             cases checked
-            · simp only [Bool.and_false, Bool.false_eq_true, if_false, StepOK]
-              exact hk.forget_weaken f
+            · simp only [Bool.and_false, Bool.false_eq_true, if_false]
+              split
+              · simp only [StepOK]
+                exact hk.forget_set f _ _ none (fun _ h => by cases h)
+              · simp only [StepOK]
+                exact hk.forget_weaken f
             · trivial
           | panic => exact absurd hd (hC.dec_no_panic typ _)
         · cases hg
@@ -452,8 +459,12 @@ theorem guardedStmt_sound (C : Codecs) (hC : HonestCodecs C) :
           | err =>
             simp only []
             cases checked
-            · simp only [Bool.and_false, Bool.false_eq_true, if_false, StepOK]
-              exact hk.forget_weaken f
+            · simp only [Bool.and_false, Bool.false_eq_true, if_false]
+              split
+              · simp only [StepOK]
+                exact hk.forget_set f _ _ none (fun _ h => by cases h)
+              · simp only [StepOK]
+                exact hk.forget_weaken f
             · trivial
           | panic => exact absurd hd (hC.dec_no_panic typ _)
         · cases hg
